@@ -210,7 +210,20 @@ class Histories(Part):
             p['name'] = ['width', 'angle', 'height'][i] if npar == 3 else 'x_%d' % (i + 1)
         problem.parameters[0]['precision'] = 1e-3
         problem.name = "store test ü"
-        store = SqliteDataStore(problem, database_name=db)
+        if rng.random() < 0.3:
+            # the path already holds the store of ANOTHER problem (an earlier study): opened with mode="rewrite" the file describes this one
+            other = absx.make_problem(1, bounds=[[0.0, 9.0]], evaluate=lambda i: [0.0], costs=[{'name': 'old_cost', 'criteria': 'minimize'}])
+            other.name = "previous study"
+            other.description = "left over"
+            old_store = SqliteDataStore(other, database_name=db)
+            leftover = Individual([4.5])
+            leftover.costs, leftover.costs_signed = [1.0], [1.0, True]
+            other.individuals.append(leftover)
+            old_store.sync_all()
+            old_store.destroy()
+            store = SqliteDataStore(problem, database_name=db, mode="rewrite")
+        else:
+            store = SqliteDataStore(problem, database_name=db)
         problem.data_store = store
         fp = FP()
         inds = {}
